@@ -238,6 +238,74 @@ def run_group(repo_dir, crate, h_list, target_dir, cls, logpath, extra=None, mem
     return res, cerr
 
 
+_MUT_STATICS = None
+
+
+def mutable_static_names():
+    """names of every `static mut` in the harness/support/oracle sources"""
+    global _MUT_STATICS
+    if _MUT_STATICS is None:
+        import glob
+        names = set()
+        root = os.path.dirname(os.path.dirname(os.path.abspath(__file__)))
+        for f in glob.glob(os.path.join(root, "harness", "*.rs")) + glob.glob(os.path.join(root, "oracle", "*.rs")):
+            for m in re.finditer(r"^\s*(?:pub(?:\([a-z]+\))?\s+)?static\s+mut\s+([A-Z_0-9]+)\s*:", open(f).read(), re.M):
+                names.add(m.group(1))
+        _MUT_STATICS = sorted(names)
+    return _MUT_STATICS
+
+
+def alias_guard(target_dir, h_list):
+    """Kani 0.68 materialises struct-typed constants by looking up an allocation with the same bytes and may
+    pick one of the harness code's `static mut`s (seen: RawVec's Cap::ZERO read from a `static mut N: usize = 0`).
+    All such statics now have unique initial bytes; this guard proves, per goto binary, that no function outside
+    the harness/support modules takes the address of one. -> {harness name: 'fn reads STATIC'}"""
+    import glob
+    names = mutable_static_names()
+    if not names:
+        return {}
+    pat = re.compile(r"address_of\((_R[A-Za-z0-9_]*?\d+(?:%s))\)" % "|".join(re.escape(n) for n in names))
+    # a stubbed function keeps its ORIGINAL name and has the stub's body (which may use the statics)
+    stubbed = set()
+    for h in h_list:
+        try:
+            for m in re.finditer(r"#\[kani::stub\(\s*([^,]+?)\s*,", open(h.file).read()):
+                stubbed.add(re.sub(r"<.*?>", "", m.group(1)).split("::")[-1].strip(" >"))
+        except Exception:
+            pass
+
+    def is_stub_target(pretty):
+        last = re.sub(r"<[^<>]*>", "", re.sub(r"<[^<>]*>", "", pretty)).split("::")[-1].strip(" >")
+        return last in stubbed
+    hdr = re.compile(r"^(\S.*) /\* (\S+) \*/$")
+    bad = {}
+    for h in h_list:
+        outs = [f for f in glob.glob(os.path.join(target_dir, "kani", "*", "debug", "build", "*", "*", "out", "*%s.out" % h.name))
+                if not f.endswith(".symtab.out") and ".type_map" not in f and ".kani-metadata" not in f and ".pretty_name_map" not in f]
+        for g in outs:
+            try:
+                p = subprocess.Popen(["goto-instrument", "--show-goto-functions", g], stdout=subprocess.PIPE,
+                                     stderr=subprocess.DEVNULL, text=True, errors="replace")
+            except Exception:
+                continue
+            cur, cur_m = "", ""
+            for line in p.stdout:
+                if line and not line[0].isspace():
+                    m = hdr.match(line.rstrip("\n"))
+                    if m:
+                        cur, cur_m = m.group(1), m.group(2)
+                    continue
+                if "address_of(_R" not in line:
+                    continue
+                m = pat.search(line)
+                if m and not ("4vsup" in cur_m or "verif_" in cur_m or "vsup" in cur or "verif_" in cur or is_stub_target(cur)):
+                    bad[h.name] = "%s reads %s" % (cur[:120], m.group(1)[-40:])
+                    break
+            p.stdout.close()
+            p.wait()
+    return bad
+
+
 def pack(hs, ngroups):
     """longest-processing-time bin packing by estimated seconds"""
     groups = [[] for _ in range(max(1, ngroups))]
@@ -295,6 +363,14 @@ def run_all(scratch, harnesses, seed=0, max_parallel=None, mem_budget_gb=48, log
             log("  group %d: %s/%s %s" % (idx, crate, cls, ",".join(h.name for h in g)))
             res, cerr = run_group(repo_dir, crate, g, td, cls, logpath)
             keep = False
+            try:
+                aliased = alias_guard(td, g)
+            except Exception as e:  # the guard must never turn into a verdict by crashing
+                aliased = {h.name: "alias guard failed: %r" % (e,) for h in g}
+            for r in res:
+                if r.h.name in aliased and r.status in ("pass", "fail"):
+                    r.status = "inconclusive"
+                    r.reason = "constant aliased to a mutable harness static (Kani allocation lookup): " + aliased[r.h.name]
             for r in res:
                 if r.status == "fail":
                     from . import cex
